@@ -17,6 +17,8 @@ import (
 	"github.com/bluenviron/gomavlib/v3/pkg/dialect"
 	"github.com/bluenviron/gomavlib/v3/pkg/message"
 
+	"go.bug.st/serial"
+
 	"verifharness/fake"
 	"verifharness/vh"
 )
@@ -50,11 +52,40 @@ type serialFake struct {
 	// slowFail: a failing open takes this long to fail (a wedged adapter, a slow driver)
 	slowFail time.Duration
 	calls    []serialCall
+	asPort   bool // hand out serial.Port values instead of plain io.ReadWriteClosers
 	ports    []*fake.Transport
 	onOpen   func(n int, tr *fake.Transport)
 	log      []string
 	errOpen  error
 }
+
+// fakePort is a fake.Transport with the control surface of a serial port.
+type fakePort struct {
+	*fake.Transport
+	failControl bool
+}
+
+var errPortControl = errors.New("serial: device did not answer the control request")
+
+func (p *fakePort) ctl() error {
+	if p.failControl {
+		return errPortControl
+	}
+	return nil
+}
+func (p *fakePort) SetMode(*serial.Mode) error         { return p.ctl() }
+func (p *fakePort) Drain() error                       { return p.ctl() }
+func (p *fakePort) ResetInputBuffer() error            { return p.ctl() }
+func (p *fakePort) ResetOutputBuffer() error           { return p.ctl() }
+func (p *fakePort) SetDTR(bool) error                  { return p.ctl() }
+func (p *fakePort) SetRTS(bool) error                  { return p.ctl() }
+func (p *fakePort) SetReadTimeout(time.Duration) error { return p.ctl() }
+func (p *fakePort) Break(time.Duration) error          { return p.ctl() }
+func (p *fakePort) GetModemStatusBits() (*serial.ModemStatusBits, error) {
+	return &serial.ModemStatusBits{}, p.ctl()
+}
+
+var _ serial.Port = (*fakePort)(nil)
 
 func (s *serialFake) open(device string, baud int) (io.ReadWriteCloser, error) {
 	t0 := time.Now()
@@ -77,6 +108,19 @@ func (s *serialFake) open(device string, baud int) (io.ReadWriteCloser, error) {
 	s.calls = append(s.calls, serialCall{t0, time.Now(), true})
 	// the previous port must have been closed before a new one is opened
 	tr := fake.NewTransport(fmt.Sprintf("serial%d", n))
+	if s.asPort {
+		// what a real opener returns: a full serial.Port; on some opens the device answers every control request (flush,
+		// mode, modem lines, timeouts) with an error although it opened fine
+		s.ports = append(s.ports, tr)
+		s.log = append(s.log, fmt.Sprintf("open#%d ok (serial.Port)", n))
+		cb := s.onOpen
+		fp := &fakePort{Transport: tr, failControl: n%3 == 2}
+		s.mu.Unlock()
+		if cb != nil {
+			cb(n, tr)
+		}
+		return fp, nil
+	}
 	s.ports = append(s.ports, tr)
 	s.log = append(s.log, fmt.Sprintf("open#%d ok", n))
 	cb := s.onOpen
